@@ -81,7 +81,9 @@ func RunLegs(run *vh.Run, cmdName string, specs []LegSpec) {
 				go func() { waitCh <- cmd.Wait() }()
 				select {
 				case err = <-waitCh:
-				case <-time.After(25 * time.Minute):
+				// generous wall-clock bound per child (its firing is an inconclusive run, never a verdict): a trial takes about
+				// two seconds on an idle machine and ten times that on one loaded with other checks
+				case <-time.After(25*time.Minute + time.Duration(j.spec.Trials)*20*time.Second):
 					_ = cmd.Process.Signal(os.Interrupt)
 					time.Sleep(time.Second)
 					_ = cmd.Process.Kill()
